@@ -65,14 +65,21 @@ theorem next_bridge (s : DoAtSt) (h : WF s) (now : Int) :
     have hst : s.started = true := by rw [hf]; exact hso
     by_cases hge : s.i ≥ s.n
     · refine ⟨{ s with i := s.i + 1 }, s.start + s.duration, false, ?_, ?_, ⟨by simp; omega, hn, hf⟩⟩
-      · simp [doAtSchedule_Next, hso, hge]
+      · have a1 : s.n < s.i + 1 := by omega
+        have a2 : s.n ≤ s.i := by omega
+        have a3 : s.n ≤ s.i + 1 - 1 := by omega
+        simp [doAtSchedule_Next, hso, hge, a1, a2, a3]
       · have : ¬ s.i.toNat < s.n.toNat := by omega
         have h1 : (s.i + 1).toNat = s.i.toNat + 1 := by omega
         have hoff : ∀ (a b : Bool) (c : Int), offsOf { s with started := a, startOnce := b, start := c, i := s.i + 1 } = offsOf s := fun _ _ _ => rfl
         have hoff' : offsOf { s with i := s.i + 1 } = offsOf s := rfl
         simp [toLeaf, hso, Leaf.next, offs_get, this, hoff, hoff', h1]
     · refine ⟨{ s with i := s.i + 1 }, s.start + s.doAt s.i, true, ?_, ?_, ⟨by simp; omega, hn, hf⟩⟩
-      · simp [doAtSchedule_Next, hso, hge]
+      · have b1 : ¬ s.n < s.i + 1 := by omega
+        have b2 : ¬ s.n ≤ s.i := by omega
+        have b3 : ¬ s.n ≤ s.i + 1 - 1 := by omega
+        have b4 : s.i + 1 - 1 = s.i := by omega
+        simp [doAtSchedule_Next, hso, hge, b1, b2, b3, b4]
       · have : s.i.toNat < s.n.toNat := by omega
         have h1 : (s.i + 1).toNat = s.i.toNat + 1 := by omega
         have hoff : ∀ (a b : Bool) (c : Int), offsOf { s with started := a, startOnce := b, start := c, i := s.i + 1 } = offsOf s := fun _ _ _ => rfl
@@ -84,7 +91,10 @@ theorem next_bridge (s : DoAtSt) (h : WF s) (now : Int) :
     by_cases hge : s.i ≥ s.n
     · refine ⟨{ s with started := true, startOnce := true, start := now, i := s.i + 1 }, now + s.duration, false, ?_, ?_,
         ⟨by simp; omega, hn, rfl⟩⟩
-      · simp [doAtSchedule_Next, StartSync_MarkStarted, hso, hst, hge]
+      · have a1 : s.n < s.i + 1 := by omega
+        have a2 : s.n ≤ s.i := by omega
+        have a3 : s.n ≤ s.i + 1 - 1 := by omega
+        simp [doAtSchedule_Next, StartSync_MarkStarted, hso, hst, hge, a1, a2, a3]
       · have : ¬ s.i.toNat < s.n.toNat := by omega
         have h1 : (s.i + 1).toNat = s.i.toNat + 1 := by omega
         have hoff : ∀ (a b : Bool) (c : Int), offsOf { s with started := a, startOnce := b, start := c, i := s.i + 1 } = offsOf s := fun _ _ _ => rfl
@@ -92,7 +102,11 @@ theorem next_bridge (s : DoAtSt) (h : WF s) (now : Int) :
         simp [toLeaf, hso, Leaf.next, offs_get, this, hoff, hoff', h1]
     · refine ⟨{ s with started := true, startOnce := true, start := now, i := s.i + 1 }, now + s.doAt s.i, true, ?_, ?_,
         ⟨by simp; omega, hn, rfl⟩⟩
-      · simp [doAtSchedule_Next, StartSync_MarkStarted, hso, hst, hge]
+      · have b1 : ¬ s.n < s.i + 1 := by omega
+        have b2 : ¬ s.n ≤ s.i := by omega
+        have b3 : ¬ s.n ≤ s.i + 1 - 1 := by omega
+        have b4 : s.i + 1 - 1 = s.i := by omega
+        simp [doAtSchedule_Next, StartSync_MarkStarted, hso, hst, hge, b1, b2, b3, b4]
       · have : s.i.toNat < s.n.toNat := by omega
         have h1 : (s.i + 1).toNat = s.i.toNat + 1 := by omega
         have hoff : ∀ (a b : Bool) (c : Int), offsOf { s with started := a, startOnce := b, start := c, i := s.i + 1 } = offsOf s := fun _ _ _ => rfl
